@@ -187,6 +187,18 @@ func (s *Server) AddCollection(db, name string, shards int, parts ...string) *Co
 	return s.addColl(db, name, shards, &schemapb.CollectionSchema{Name: name}, 0, parts...)
 }
 
+// AddPartition adds a partition to an existing downstream collection.
+func (s *Server) AddPartition(db, coll, part string) {
+	s.mu.Lock()
+	defer s.mu.Unlock()
+	if d := s.dbs[db]; d != nil && d[coll] != nil {
+		c := d[coll]
+		if _, ok := c.Parts[part]; !ok {
+			c.Parts[part] = c.ID*100 + 10 + int64(len(c.Parts))
+		}
+	}
+}
+
 func (s *Server) addColl(db, name string, shards int, sch *schemapb.CollectionSchema, ts uint64, parts ...string) *Coll {
 	if s.dbs[db] == nil {
 		s.dbs[db] = map[string]*Coll{}
